@@ -20,6 +20,7 @@ import (
 )
 
 const raceG = 8
+const raceRounds = 2
 
 type member struct {
 	name string
@@ -48,37 +49,49 @@ func (m member) observe(order int) (string, secs2.Item) {
 	}
 }
 
+// raceSpecs: ~45 subjects — constructed and decoded items, lazily decoded messages and
+// their re-stamped copies, lazily encoded messages built from items and their copies,
+// derived messages, a truncated-body message, control messages. Small element counts
+// (the shared lazily computed state, not the payload size, is what matters here), plus
+// one 20-child list (every leaf kind and a nested list) per lazy path.
 func raceSpecs() []spec {
-	pick := []struct {
+	type kn struct {
 		k string
 		n int
-	}{{"list", 3}, {"list", 300}, {"binary", 300}, {"ascii", 3}, {"localized_str", 2}, {"boolean", 300}, {"i4", 1}, {"i8", 300}, {"u2", 2}, {"f4", 300}, {"jis8", 0}}
-	provs := map[string]bool{
-		"NewListItem/spread": true, "NewBinaryItem/slice/[]byte": true, "New": true, "NewBooleanItem/slice/[]bool": true,
-		"NewIntItem/slice/[]int64": true, "NewUintItem/slice/[]uint64": true, "NewFloatItem/slice/[]float64": true,
-		"Decode": true, "NewListItem/ToList-of-decoded": true,
-		"DecodeHSMSMessage": true, "DecodeHSMSPayload": true, "NewDataMessage": true, "NewDataMessage(Decode)": true,
-		"WithSessionID(decoded)": true, "base-of-copies(decoded)": true, "WithID(new)": true, "base-of-copies(new)": true,
-		"Derive.Build(decoded)": true, "Derive.With*.Build(new)": true, "secs2.NewMessage": true,
 	}
+	itemProvs := map[string]bool{
+		"NewListItem/spread": true, "NewBinaryItem/slice/[]byte": true, "New": true, "NewBooleanItem/slice/[]bool": true,
+		"NewIntItem/slice/[]int64": true, "NewFloatItem/slice/[]float64": true, "Decode": true, "NewListItem/ToList-of-decoded": true,
+	}
+	msgProvs := map[string]bool{
+		"DecodeHSMSMessage": true, "DecodeHSMSPayload": true, "NewDataMessage": true,
+		"WithSessionID(decoded)": true, "base-of-copies(decoded)": true, "WithID(new)": true, "base-of-copies(new)": true,
+		"Derive.Build(decoded)": true,
+	}
+	items := map[kn]bool{{"list", 3}: true, {"binary", 3}: true, {"ascii", 3}: true, {"i4", 1}: true, {"f4", 2}: true, {"boolean", 3}: true}
+	msgs := map[kn]bool{{"list", 3}: true, {"binary", 2}: true, {"i8", 3}: true, {"empty", 0}: true}
+	big := map[string]bool{"DecodeHSMSMessage": true, "NewDataMessage": true, "base-of-copies(decoded)": true, "base-of-copies(new)": true}
 	var out []spec
-	for _, sp := range allSpecs(gridOpt{}) {
-		ok := false
-		for _, p := range pick {
-			if sp.n == p.n && (sp.typ == p.k || sp.typ == "datamsg/"+p.k) {
-				ok = true
+	specs := allSpecs(gridOpt{})
+	specs = append(specs, dataMsgSpecs(kinds[0], 20, gridOpt{})...) // a 20-child list body (all leaf kinds + a nested list)
+	for _, sp := range specs {
+		switch {
+		case len(sp.typ) > 8 && sp.typ[:8] == "datamsg/":
+			k := kn{sp.typ[8:], sp.n}
+			if msgProvs[sp.prov] && (msgs[k] || (k == kn{"list", 20} && big[sp.prov])) {
+				out = append(out, sp)
+			}
+		case sp.typ == "empty":
+			out = append(out, sp)
+		default:
+			if itemProvs[sp.prov] && items[kn{sp.typ, sp.n}] {
+				out = append(out, sp)
 			}
 		}
-		if sp.typ == "datamsg/empty" || sp.typ == "empty" {
-			ok = true
-		}
-		if ok && (provs[sp.prov] || sp.typ == "empty") {
-			out = append(out, sp)
-		}
 	}
-	out = append(out, badBodySpecs()[:4]...)
+	out = append(out, badBodySpecs()[0])
 	for _, sp := range ctrlSpecs() {
-		if sp.typ == "ctrlmsg/select.req" || sp.typ == "ctrlmsg/reject.req(data)" {
+		if sp.id == "ctrl/select.req/New" || sp.id == "ctrl/reject.req(data)/DecodeHSMSMessage" {
 			out = append(out, sp)
 		}
 	}
@@ -92,7 +105,7 @@ func TestRaceC12(t *testing.T) {
 	specs := raceSpecs()
 	subjects, observations := 0, 0
 	for _, sp := range specs {
-		for round := 0; round < 3; round++ {
+		for round := 0; round < raceRounds; round++ {
 			// sequential expectation from an identical fresh subject
 			a := sp.mk()
 			am := membersOf(a)
@@ -138,7 +151,7 @@ func TestRaceC12(t *testing.T) {
 			}
 		}
 	}
-	t.Logf("race pass: %d subjects (x3 rounds), %d concurrent full transcripts compared", len(specs), observations)
+	t.Logf("race pass: %d subjects (x%d rounds), %d concurrent full transcripts compared", len(specs), raceRounds, observations)
 }
 
 // TestRaceC12EncodeOnce: concurrent first serialisation of a constructed message and its
@@ -151,7 +164,7 @@ func TestRaceC12EncodeOnce(t *testing.T) {
 	for _, kn := range []struct {
 		k string
 		n int
-	}{{"list", 300}, {"list", 3}, {"binary", 300}, {"i4", 1}, {"ascii", 3}, {"f8", 300}, {"boolean", 0}} {
+	}{{"list", 20}, {"list", 3}, {"binary", 300}, {"i4", 1}, {"ascii", 3}, {"f8", 300}, {"boolean", 0}} {
 		for round := 0; round < 5; round++ {
 			k := kindByName(kn.k)
 			it, _, _ := natural(k, kn.n)
